@@ -10,7 +10,7 @@ import sys, os, json, warnings, importlib
 
 def build_module(moddir, ver, shift=0, name="cachedmod", body=None):
     os.makedirs(moddir, exist_ok=True)
-    src = "\n" * shift + "import os\n\n\ndef f(x, y=0):\n    # cach\u00e9 \u2713 (non-ASCII on purpose: torn writes may split a character)\n    with open(os.environ['VERIF_EXEC_LOG'], 'a') as h:\n        h.write('%d %%r %%r\\n' %% (x, y))\n    return ['v%d', x, y]\n" % (ver, ver)
+    src = "\n" * shift + "import os\n\n\ndef f(x, y=0):\n    # cach\u00e9 \u2713 (non-ASCII on purpose: torn writes may split a character)\n    with open(os.environ['VERIF_EXEC_LOG'], 'a') as h:\n        h.write('%d %%r %%r\\n' %% (x, y))\n    return ['v%d', x, y]\n\n\nasync def af(x, y=0):\n    with open(os.environ['VERIF_EXEC_LOG'], 'a') as h:\n        h.write('%d %%r %%r async\\n' %% (x, y))\n    return ['v%d', x, y]\n" % (ver, ver, ver, ver)
     if body:
         src = body
     p = os.path.join(moddir, name + ".py")
@@ -47,6 +47,7 @@ def main(spec=None, out=None):
         # a user-written callback in the style of the documentation: it reads a key of the metadata
         ckw["cache_validation_callback"] = lambda metadata: metadata["duration"] >= 0
     g = mem.cache(cachedmod.f, **ckw)
+    ga = mem.cache(cachedmod.af, **ckw) if hasattr(cachedmod, "af") else None     # coroutine function: AsyncMemorizedFunc
     if out is None:
         out = sys.stdout
     import threading
@@ -57,6 +58,9 @@ def main(spec=None, out=None):
           rec = {"op": op}
           try:
               if op[0] == "call": rec["value"] = g(*op[1:])
+              elif op[0] == "acall":
+                  import asyncio
+                  rec["value"] = asyncio.run(ga(*op[1:]))
               elif op[0] == "shelve": rec["value"] = g.call_and_shelve(*op[1:]).get()
               elif op[0] == "shelveref":
                   ref = g.call_and_shelve(*op[1:])
